@@ -828,7 +828,10 @@ fn run_faults(ctl: &Arc<Ctl>, c: &Arc<Content>, cap: u64, rng: &mut impl Rng, ou
     }
     let mut nruns = 0;
     for (fi, f) in faults.iter().enumerate() {
-        if fi % stride != (rng.gen_range(0..stride)) && stride > 1 {
+        // the stride samples the per-byte enumerations (bursts, truncations); deletions, extensions and every junk name
+        // at every level always run
+        let sampled = matches!(f, Fault::Burst(..) | Fault::Trunc(..));
+        if sampled && stride > 1 && fi % stride != (rng.gen_range(0..stride)) {
             continue;
         }
         let dir = tempfile::tempdir().unwrap();
